@@ -140,6 +140,91 @@ class Persist:
                        f'is not derived from the stored value (a stale key may be bound to a value computed for '
                        f'another input)')
 
+    def carried_state_in_key(self, op):
+        """A2 (ii) for stores inside a loop: if the stored value is computed from a variable whose value is
+        carried over from earlier iterations (re-bound or mutated in the loop and reaching the store without
+        being re-bound in the same iteration), the key must depend on carried state as well - a key that only
+        identifies the current iteration cannot identify a value that depends on the history of the loop."""
+        from .prov import MUTATORS
+        fn, node = op['fn'], op['node']
+        cfg = build_cfg(fn)
+        rd = build_rd(fn)
+        heads = [h for h in cfg.nodes if (h.kind == 'for' or (h.kind == 'test' and isinstance(h.stmt, ast.While)))
+                 and any(lab == 'T' for _, lab in h.succ)]
+        inner = None
+        for h in heads:
+            body = cfg.reachable([m for m, lab in h.succ if lab == 'T'], blocked_nodes=[h])
+            if node.id in body and h.id in cfg.reachable([node]):
+                if inner is None or len(body) < inner[1]:
+                    inner = (h, len(body), body)
+        if inner is None:
+            return True, 'store is not inside a loop'
+        head, _, body = inner
+
+        mutated_in_place = set()
+
+        def defs_in_loop(name):
+            out = []
+            for i in body:
+                n = cfg.nodes[i]
+                if name in node_defs(n):
+                    out.append(n)
+                    continue
+                a = n.ast
+                if n.kind == 'stmt' and isinstance(a, (ast.Assign, ast.AugAssign)):
+                    tgts = a.targets if isinstance(a, ast.Assign) else [a.target]
+                    if any(isinstance(t, ast.Subscript) and isinstance(t.value, ast.Name) and t.value.id == name
+                           for t in tgts):
+                        mutated_in_place.add(name)
+                        continue
+                if a is not None and n.kind == 'stmt':
+                    for sub in walk_no_nested(a):
+                        if isinstance(sub, ast.Call) and isinstance(sub.func, ast.Attribute) and \
+                                sub.func.attr in MUTATORS and isinstance(sub.func.value, ast.Name) and \
+                                sub.func.value.id == name:
+                            mutated_in_place.add(name)
+                            break
+            return out
+
+        def carried(name, at):
+            ds = defs_in_loop(name)
+            if name in mutated_in_place and not ds:
+                return True      # partially updated in place in the loop, bound outside: keeps earlier state
+            if not ds:
+                return False
+            if name in node_defs(head):
+                return False
+            blocked = [d for d in ds if d is not at]
+            starts = [m for m, lab in head.succ if lab == 'T']
+            return at.id in cfg.reachable(starts, blocked_nodes=blocked + [head]) or at in starts
+
+        def key_has_carried(expr, at, depth=0, seen=None):
+            seen = seen or set()
+            for nm in names_used(expr):
+                if (nm, at.id) in seen:
+                    continue
+                seen.add((nm, at.id))
+                if carried(nm, at):
+                    return nm
+                if depth < 4:
+                    for d in rd.defs_of(nm, at):
+                        if d.id in body and d.kind == 'stmt' and isinstance(d.ast, ast.Assign):
+                            r = key_has_carried(d.ast.value, d, depth + 1, seen)
+                            if r:
+                                return r
+            return None
+        v0 = key_has_carried(op['value'], node) if op['value'] is not None else None
+        vnames = [v0] if v0 else []
+        # the store target itself (a[k] = b = f(b)) re-binds b: b is read before
+        if not vnames:
+            return True, 'the stored value does not depend on state carried over loop iterations'
+        k = key_has_carried(op['index'], node)
+        if k:
+            return True, f'value depends on carried `{vnames[0]}`, key on carried `{k}`'
+        return False, (f'the stored value is computed from `{vnames[0]}`, which carries the effect of earlier '
+                       f'iterations of the loop at L{head.lineno}, but the key `{norm(op["index"])}` identifies '
+                       f'only the current iteration: two different histories share one cache entry')
+
     # ------------------------------------------------------------------ A1
     def check_writes(self, rule='A1', floor_note=''):
         ctx = self.ctx
@@ -162,7 +247,12 @@ class Persist:
                     verdict, why = True, 'constant flag store'
                 else:
                     verdict, why = self.memo_canonical(op)
-                    n += 0
+                    if verdict:
+                        ok2, why2 = self.carried_state_in_key(op)
+                        if not ok2:
+                            verdict, why = False, why2
+                        else:
+                            why += '; ' + why2
             elif kind == 'mutcall' and op['method'] in ('add',) and len(op['value'].args) == 1:
                 verdict, why = True, 'monotone membership flag (set.add of a key)'
             elif kind == 'setattr':
